@@ -158,12 +158,24 @@ def gen_case(rng):
         bad = rng.random() < 0.15
         a_poss = poss
         iters = [list(v[3]) for v in vs]
+        a_ch, a_nm, a_ar = [v[0] for v in vs], [v[1] for v in vs], [v[2] for v in vs]
         if bad:
-            if Nv > 1 and rng.random() < 0.5:
+            how = rng.choice(["ragged", "poss", "iters_short", "iters_long", "names", "chans", "args"])
+            if how == "ragged" and Nv > 1:
                 iters[0] = iters[0][:-1] if M > 1 else iters[0] + [0.5]      # value lists of different lengths
+            elif how == "iters_short":
+                iters = iters[:-1]                                          # fewer value lists than addressed places
+            elif how == "iters_long":
+                iters = iters + [list(iters[0])]                            # more value lists than addressed places
+            elif how == "names":
+                a_nm = a_nm[:-1]
+            elif how == "chans":
+                a_ch = a_ch[:-1]
+            elif how == "args":
+                a_ar = a_ar[:-1]
             else:
                 a_poss = poss[:-1]                                          # one list of addresses shorter than the others
-        prog += [("OSDescr", q), ("TRepeat", q, a_poss, [v[0] for v in vs], [v[1] for v in vs], [v[2] for v in vs],
+        prog += [("OSDescr", q), ("TRepeat", q, a_poss, a_ch, a_nm, a_ar,
                                    iters, s), ("OSDescr", q), ("OSLen", s), ("OSCheck", s), ("OSDescr", s)]
         info.update({"vs": vs, "poss": poss, "L": L, "M": M, "bad": bad})
     return {"prog": prog, **info}
